@@ -34,4 +34,36 @@ def driverLine (ws : List String) : String :=
   | none => "bad-op"
   | some tr => if checkTrace tr then "ok" else "dirty-at-fin"
 
+/-! ### per-message checker (end-to-end leg: FIN commands are written by another goroutine, later) -/
+
+inductive MSys
+  | wmsg (f id : Nat)      -- the record of message `id` was written to file `f`
+  | fsync (f : Nat)
+  | fin (id : Nat)         -- `FIN id` was written to the nsqd socket
+deriving DecidableEq, Repr
+
+/-- `dirty` = (file, message) pairs written and not yet fsynced; `clean` = messages with a durable copy -/
+def checkMsgFrom (dirty : List (Nat × Nat)) (clean : List Nat) : List MSys → Bool
+  | [] => true
+  | .wmsg f id :: r => checkMsgFrom ((f, id) :: dirty) clean r
+  | .fsync f :: r =>
+    checkMsgFrom (dirty.filter (fun p => p.1 ≠ f)) (((dirty.filter (fun p => p.1 = f)).map (·.2)) ++ clean) r
+  | .fin id :: r => clean.contains id && checkMsgFrom dirty clean r
+
+def checkMsgTrace (tr : List MSys) : Bool := checkMsgFrom [] [] tr
+
+def parseMTok (s : String) : Option MSys :=
+  match s.splitOn ":" with
+  | ["m", f, n] => match f.toNat?, n.toNat? with
+    | some f, some n => some (MSys.wmsg f n)
+    | _, _ => none
+  | ["s", n] => n.toNat?.map MSys.fsync
+  | ["f", n] => n.toNat?.map MSys.fin
+  | _ => none
+
+def driverLineM (ws : List String) : String :=
+  match ws.mapM parseMTok with
+  | none => "bad-op"
+  | some tr => if checkMsgTrace tr then "ok" else "fin-before-fsync"
+
 end Nsq.Model.ToFileTrace
